@@ -177,7 +177,13 @@ func cmdRand(o *Out, p *Package, j Job) {
 			}
 		}
 		if canVary && len(distinct) < 2 && calls >= 8 {
-			o.Violation(p.ID, "rand-constant", fmt.Sprintf("%s() returned the same value on %d calls although its type %s admits more than one value", name, calls, rt))
+			sig, why := "rand-constant", ""
+			if !variesMode(u, rt, map[reflect.Type]bool{}, true) {
+				// the cause is named, so that any other constant generator keeps the plain class
+				sig = "rand-constant:map-saturated-by-its-enum-keys"
+				why = " (its only varying parts are maps keyed by an enum whose elements do not vary: dozens of insertions over a handful of keys give the full map every time)"
+			}
+			o.Violation(p.ID, sig, fmt.Sprintf("%s() returned the same value on %d calls although its type %s admits more than one value%s", name, calls, rt, why))
 		}
 		o.Distinct(fmt.Sprintf("%s|%s|%d", p.ID, name, len(distinct)))
 		if len(names) > 0 && name == names[0] {
@@ -379,6 +385,14 @@ func valuesOf(vs []reflect.Value) []any {
 
 // varies reports whether the generated function for t can return more than one value.
 func varies(u *refwire.Universe, t reflect.Type, seen map[reflect.Type]bool) bool {
+	return variesMode(u, t, seen, false)
+}
+
+// variesMode is varies; with saturated set, a map only counts as varying through its elements, or through
+// keys of a type that is not an enum or a boolean: the generated code inserts 40 to 49 random entries, which
+// (almost) always yields every key of an enum, so that such a map is the same on every call when its
+// elements do not vary.
+func variesMode(u *refwire.Universe, t reflect.Type, seen map[reflect.Type]bool, saturated bool) bool {
 	if seen[t] {
 		return false
 	}
@@ -404,18 +418,24 @@ func varies(u *refwire.Universe, t reflect.Type, seen map[reflect.Type]bool) boo
 	case reflect.Map:
 		// dozens of insertions: the number of entries only varies with the keys (a key type with one
 		// value gives the same single entry every time)
-		return varies(u, t.Key(), seen) || varies(u, t.Elem(), seen)
+		if saturated {
+			_, keyIsEnum := u.EnumAll[t.Key()]
+			if keyIsEnum || t.Key().Kind() == reflect.Bool {
+				return variesMode(u, t.Elem(), seen, saturated)
+			}
+		}
+		return variesMode(u, t.Key(), seen, saturated) || variesMode(u, t.Elem(), seen, saturated)
 	case reflect.Array:
-		return t.Len() > 0 && varies(u, t.Elem(), seen)
+		return t.Len() > 0 && variesMode(u, t.Elem(), seen, saturated)
 	case reflect.Pointer:
-		return varies(u, t.Elem(), seen)
+		return variesMode(u, t.Elem(), seen, saturated)
 	case reflect.Struct:
 		for i := 0; i < t.NumField(); i++ {
 			f := t.Field(i)
 			if !f.IsExported() || f.Tag.Get("gomacro-data") == "ignore" {
 				continue
 			}
-			if varies(u, f.Type, seen) {
+			if variesMode(u, f.Type, seen, saturated) {
 				return true
 			}
 		}
@@ -425,7 +445,7 @@ func varies(u *refwire.Universe, t reflect.Type, seen map[reflect.Type]bool) boo
 		if len(ms) >= 2 {
 			return true
 		}
-		return len(ms) == 1 && varies(u, ms[0], seen)
+		return len(ms) == 1 && variesMode(u, ms[0], seen, saturated)
 	}
 	return false
 }
